@@ -14,7 +14,7 @@ import ast
 from fractions import Fraction
 
 from ..index import AnchorMissing, Unrecognised
-from ..astutil import u, body_walk, local_env, func_calls, walk_local, single_return_expr, inline_locals
+from ..astutil import linear_body, u, body_walk, local_env, func_calls, walk_local, single_return_expr, inline_locals
 from .. import sym
 
 EXPLANATION = ("Static analysis of the genomic-array layer: array lengths in the run-length constructors are tracked as linear forms over symbolic input sizes "
@@ -118,7 +118,7 @@ def r1_symbolic_lengths(ctx):
                     raise Unrecognised(f"{f.where}: statement kind {type(s).__name__} in from_bedgraph")
             cur = nxt
         return cur
-    run(f.node.body, {}, [])
+    run(linear_body(f.node), {}, [])
     ctx.floor("return paths of from_bedgraph", len(paths), 9)
     n_checked = 0
     for ret, env, tr in paths:
@@ -145,12 +145,12 @@ def r1_symbolic_lengths(ctx):
     ok = sorted(sym.canon(c) for c in ins) == sorted(["np.insert(events, 0, 0)", "np.insert(values, 0, 0)"])
     ctx.ob(f.where, "a bedGraph that starts after position 0 gets a leading zero run (events and values extended together)", ok, "", key="C09-R1|leading-run")
     fi = ix.func(IV, "GenomicRunLengthArray.from_intervals")
-    sts = [s for s in fi.node.body if isinstance(s, ast.Assign) and u(s.targets[0]) == "values"]
+    sts = [s for s in linear_body(fi.node) if isinstance(s, ast.Assign) and u(s.targets[0]) == "values"]
     ok = bool(sts) and sym.canon(sts[-1].value) == sym.canon(sym.parse_expr("values[:len(events) - 1]"))
-    rets = [s for s in fi.node.body if isinstance(s, ast.Return)]
+    rets = [s for s in linear_body(fi.node) if isinstance(s, ast.Return)]
     ok = ok and bool(rets) and sym.canon(rets[-1].value) == "cls(events, values, do_clean=True)" and sts[-1].lineno < rets[-1].lineno
     ctx.ob(fi.where, "from_intervals cuts the interleaved values to len(events) - 1 immediately before construction", ok, "", key="C09-R1|from_intervals-cut")
-    ev = [s for s in fi.node.body if isinstance(s, ast.Assign) and u(s.targets[0]) == "events"]
+    ev = [s for s in linear_body(fi.node) if isinstance(s, ast.Assign) and u(s.targets[0]) == "events"]
     ok = bool(ev) and sym.canon(ev[0].value) == sym.canon(sym.parse_expr(f"np.empty(len(prefix) + len(postfix) + {fi.params[1]}.size + {fi.params[2]}.size, dtype=int)"))
     ctx.ob(fi.where, "events = optional 0 + interleaved starts/ends + optional size", ok, "", key="C09-R1|from_intervals-events")
 
@@ -159,7 +159,7 @@ def r2_dense_expansion(ctx):
     ix = ctx.index
     f = ix.func(IV, "GenomicRunLengthArray.to_array")
     table = {}
-    chain = [s for s in f.node.body if isinstance(s, ast.If) and "dtype" in u(s.test) and "float" in u(s.test)]
+    chain = [s for s in linear_body(f.node) if isinstance(s, ast.If) and "dtype" in u(s.test) and "float" in u(s.test)]
     if len(chain) == 1:
         n = chain[0]
         while True:
@@ -172,7 +172,7 @@ def r2_dense_expansion(ctx):
             else:
                 break
     want = {"np.float64": "np.uint64", "np.float32": "np.uint32", "np.float16": "np.uint16"}
-    rets = [s for s in f.node.body if isinstance(s, ast.Return)]
+    rets = [s for s in linear_body(f.node) if isinstance(s, ast.Return)]
     back = sym.canon(rets[-1].value) if rets else ""
     if table:
         bad = {k: v for k, v in table.items() if want.get(k) != v}
@@ -186,7 +186,7 @@ def r2_dense_expansion(ctx):
             raise Unrecognised(f"{f.where}: float reinterpretation has an unknown form")
     ctx.ob(f.where, "the dense array is viewed back as the values' own dtype", back == "array.view(self._values.dtype)", back, key="C09-R2|view-back")
     seq = {}
-    for s in f.node.body:
+    for s in linear_body(f.node):
         if isinstance(s, ast.Assign):
             seq[sym.canon(s.targets[0])] = sym.canon(s.value)
     ok = seq.get("diffs") == "op(values[:-1], values[1:])" and seq.get("array[self._starts[1:]]") == "diffs" and seq.get("array[self._starts[0]]") == "values[0]" and \
@@ -201,7 +201,7 @@ def r3_forwarding(ctx):
     ix = ctx.index
     au = ix.func(GT, "GenomicArrayGlobal.__array_ufunc__")
     env = {}
-    for s in au.node.body:
+    for s in linear_body(au.node):
         if isinstance(s, ast.Assign) and isinstance(s.targets[0], ast.Name):
             env.setdefault(s.targets[0].id, []).append(s.value)
     calls = [c for c in func_calls(au.node) if u(c.func) == "self._global_track.__array_ufunc__"]
@@ -213,7 +213,7 @@ def r3_forwarding(ctx):
            one_list, u(calls[0]), key="C09-R3|ufunc-order")
     ok = [u(a) for a in calls[0].args[:2]] == ["ufunc", "method"] and any(k.arg is None and u(k.value) == "kwargs" for k in calls[0].keywords)
     ctx.ob(au.where, "the same ufunc, method and keyword arguments are forwarded", ok, "", key="C09-R3|ufunc-args")
-    rets = [s for s in au.node.body if isinstance(s, ast.Return)]
+    rets = [s for s in linear_body(au.node) if isinstance(s, ast.Return)]
     ok = bool(rets) and sym.canon(rets[-1].value) == "self.__class__(r, self._genome_context)"
     ctx.ob(au.where, "the result is re-wrapped with the same genome context", ok, "", key="C09-R3|ufunc-rewrap")
     af = ix.func(GT, "GenomicArrayGlobal.__array_function__")
@@ -232,7 +232,7 @@ def r3_forwarding(ctx):
     env = local_env(gd.node)
     ok = sym.same(env.get("starts"), "go.get_offset(names)", {}) and sym.same(env.get("stops"), "starts + go.get_size(names)", {}) and sym.same(env.get("names"), "go.names()", {}) and \
         "data = self._global_track[start:stop]" in u(gd.node) and "for name, start, stop in zip(names, starts, stops):" in u(gd.node)
-    rets = [s for s in gd.node.body if isinstance(s, ast.Return)]
+    rets = [s for s in linear_body(gd.node) if isinstance(s, ast.Return)]
     ok = ok and bool(rets) and sym.canon(rets[-1].value) == "np.concatenate(intervals_list)"
     ctx.ob(gd.where, "back-conversion walks the chromosomes in genome order, slicing [offset, offset + size) and concatenating the per-chromosome records", ok, "", key="C09-R3|get_data")
     gi = ix.func(GT, "GenomicArray._get_intervals_from_data")
